@@ -88,6 +88,17 @@ static void op_cwait(actor *a, int c, int m, int timed, long dl_ms)
     }
     /* back under the mutex */
     m_acquired(a, m, "cond_wait");
+    if (m_recursive(m)) {
+        /* "a waiter always returns holding the mutex": for a recursive mutex that means
+         * as its owner, so a nested acquisition by the waiter must succeed at once */
+        int rc2 = ABT_mutex_trylock(G.mutex[m]);
+        if (rc2 != ABT_SUCCESS)
+            viol("cond %d: waiter returned (rc %d) without owning recursive mutex %d: nested "
+                 "trylock returned %d", c, rc, m, rc2);
+        rc2 = ABT_mutex_unlock(G.mutex[m]);
+        CHECK_RC(rc2, "nested unlock after cond wait");
+        stat_add("cond_recursive_owner_checked", 1);
+    }
     if (rc == ABT_SUCCESS) {
         if (c_credits[c] <= 0)
             viol("cond %d: waiter returned ABT_SUCCESS without having been signalled "
